@@ -32,8 +32,8 @@ def cpEscape (cp : Nat) : Bytes :=
   else u4 cp
 
 def shortEscape (ch : Nat) : Option Nat :=
-  if Gen.jsonEscLo ≤ ch ∧ ch ≤ Gen.jsonEscHi ∧ !Gen.jsonEscExcluded.contains ch then
-    Gen.jsonSpecials[ch - Gen.jsonEscLo]?
+  if Gen.Json.jsonEscLo ≤ ch ∧ ch ≤ Gen.Json.jsonEscHi ∧ !Gen.Json.jsonEscExcluded.contains ch then
+    Gen.Json.jsonSpecials[ch - Gen.Json.jsonEscLo]?
   else none
 
 /-- `isprint` in the "C" locale -/
